@@ -772,4 +772,357 @@ theorem stepNX_pass {cfg : Cfg} {M : List Nat} {adr : Nat → Nat} {n : Net} {v 
   rw [seen_set_other _ _ _ _ (Ne.symm hne)]
   exact hsucc s' hs'1 hs'2
 
+theorem bitsN_11_3 (p : Params) : p.bits (11 * 3) = p.bits 33 := rfl
+theorem bitsN_11_6 (p : Params) : p.bits (11 * 6) = p.bits 66 := rfl
+
+theorem nextGapPoll_between (ts ns hsa cur a : Nat) (h : nextGapPoll ts ns hsa cur = .poll a) (hne : ns ≠ ts) :
+    Between ts ns a := by
+  unfold nextGapPoll at h
+  by_cases h0 : hsa = 0
+  · rw [if_pos h0] at h; cases h
+  rw [if_neg h0] at h
+  by_cases h1 : cur ≠ hsa - 1 ∧ cur ≥ 255
+  · rw [if_pos h1] at h; cases h
+  rw [if_neg h1] at h
+  simp only at h
+  generalize (if cur = hsa - 1 then 0 else cur + 1) = nx at h
+  unfold Between
+  by_cases h2 : ns > ts
+  · simp only [h2, if_true, decide_eq_true_eq] at h
+    by_cases hg : nx > ts ∧ nx < ns
+    · rw [if_pos hg] at h; cases h
+      refine ⟨by omega, ?_⟩
+      rw [if_pos (by omega)]; exact hg
+    · rw [if_neg hg] at h; cases h
+  · by_cases h3 : ns < ts
+    · simp only [h2, h3, if_true, if_false, decide_eq_true_eq] at h
+      by_cases hg : nx > ts ∨ nx < ns
+      · rw [if_pos hg] at h; cases h
+        refine ⟨by omega, ?_⟩
+        rw [if_neg (by omega), if_pos h3]; exact hg
+      · rw [if_neg hg] at h; cases h
+    · omega
+
+/-- The station whose turn it is passes the token (from `hold` directly, or after an unanswered GAP request). -/
+theorem stepNX_token {cfg : Cfg} {M : List Nat} {adr : Nat → Nat} {n : Net} {v : NView} (h : NInv cfg M adr n v)
+    (hok : cfg.Ok) (hP100 : cfg.P ≤ 100000) (now : Int) (e : EvOkN cfg n v.tl v.x now) (c : Ctx)
+    (hp : v.sx.s.poll v.sx.apps now (n.bus.transmitting v.x now) [] = .ok c)
+    (htx : c.tx = some (tokenBytes v.sx.s.ring.ns v.sx.s.p.address))
+    (hring : c.s.ring = v.sx.s.ring.witness v.sx.s.p.address v.sx.s.ring.ns)
+    (hst : c.s.st = (if (v.sx.s.ring.witness v.sx.s.p.address v.sx.s.ring.ns).ns = v.sx.s.p.address
+                then FState.useToken ⟨now, none⟩ false else FState.checkTokenPass .first))
+    (hlast : c.s.lastBusActivity = some (now + (v.sx.s.p.bits (11 * 3) : Nat)))
+    (h1 : c.s.p = v.sx.s.p) (h3 : c.s.online = true) (h4 : c.s.pendingBytes = 0) (h5 : c.rx = []) (h7 : AnsOk AppP c.apps)
+    (hq1 : v.Lo < now) (hends : ∀ o ∈ n.bus.txs, cEnd cfg o ≤ now)
+    (hnotok : ∀ j, j < n.stations.length → j ≠ v.x → ∀ a, v.tr.bytes ≠ tokenBytes (adr j) a)
+    (hturn : v.turn M adr = adr v.x)
+    (hsync : cEnd cfg v.tr + (cfg.b33 : Nat) < now ∨ (v.ph = .holdT ∧ cEnd cfg v.tr + (cfg.b33 : Nat) ≤ now)) :
+    NStepOut cfg M adr n v v.x now := by
+  have hc2 := cfg.ce2 hok.rate
+  have hc0 := cfg.ce_pos hok.rate 2
+  have hxs : v.x < n.bus.seen.length := by rw [h.log.seen]; exact h.xlt
+  have hns : v.sx.s.ring.ns = cycSucc (adr v.x) M := h.okx.view.ns.1
+  have hview' : RingView M (adr v.x) (v.sx.s.ring.witness (adr v.x) (cycSucc (adr v.x) M)) := h.okx.view.witness
+  rw [h.okx.addr, hns] at htx hring hst
+  have hst' : c.s.st = .checkTokenPass .first := by
+    rw [hst, hview'.ns.1, if_neg (h.ring.two _ (h.ring.mem v.x h.xlt))]
+  have hlast' : c.s.lastBusActivity = some (now + (cfg.b33 : Nat)) := by
+    rw [hlast, bitsN_11_3, h.okx.bits]; rfl
+  have hLo : v.Lo ≤ now + ((cfg.ce 2 : Nat) : Int) + (cfg.b33 : Nat) := by omega
+  obtain ⟨n', pre', hn', hinv'⟩ := ninv_send_x h hok hP100 now e c _ .pass
+    (now + ((cfg.ce 2 : Nat) : Int) + 2 * (cfg.P : Nat) + (cfg.b33 : Nat)) (now + ((cfg.ce 2 : Nat) : Int) + (cfg.b33 : Nat))
+    hp htx h1 (by rw [hring]; exact hview') h3 h4 h5 h7 (by show 0 < 3; omega)
+    ⟨v.x, h.xlt, rfl, .inl rfl⟩ hq1 hLo hends hnotok
+    (by
+      intro l hl
+      rw [hlast'] at hl
+      cases hl
+      refine ⟨by omega, ?_⟩
+      show now + ((cfg.ce 2 : Nat) : Int) ≤ _
+      omega)
+    (by
+      intro pre'
+      unfold PhaseOkN NView.sendX upSt
+      simp only
+      rw [seen_set_self _ _ _ hxs]
+      refine ⟨trivial, trivial, hst', hlast', Int.le_refl _, rfl, rfl, ?_⟩
+      intro s hs hsa
+      have hne : s ≠ v.x := by
+        intro e'; rw [e'] at hsa; exact h.ring.two _ (h.ring.mem v.x h.xlt) hsa.symm
+      rw [seen_set_other _ _ _ _ (Ne.symm hne)]
+      have := h.tls s hs
+      have := e.tl
+      show _ < now + ((cfg.ce 2 : Nat) : Int)
+      omega)
+  refine ⟨n', _, [], c, hn', hinv', rfl, .inr ⟨_, htx, hturn.symm, hsync, rfl, .inr (.inl ⟨rfl, ?_, rfl⟩)⟩⟩
+  unfold NView.turn NView.sendX
+  rfl
+
+theorem tokenBytes_adr_inj (a b c d : Nat) (ha : a < 256) (hc : c < 256) (h : tokenBytes a b = tokenBytes c d) : a = c := by
+  unfold tokenBytes sendToken at h
+  simp only [List.cons.injEq, and_true, true_and] at h
+  have e1 := congrArg UInt8.toNat h.1
+  rw [u8n a ha, u8n c hc] at e1
+  exact e1
+
+
+theorem scriptsOk_ansOk {apps : Apps} (h : ScriptsOk apps) : AnsOk (fun hd pdu => hd.lengthByte pdu.length ≤ 249) apps := h
+
+/-- **The station whose turn it is transmits** (after the synchronisation pause of a hold, or when it gives
+up on an unanswered application request): an application telegram of one of its scripts, a GAP request to a
+non-member, or the token to its successor. -/
+theorem stepNX_emit {cfg : Cfg} {M : List Nat} {adr : Nat → Nat} {n : Net} {v : NView} (h : NInv cfg M adr n v)
+    (hok : cfg.Ok) (hP100 : cfg.P ≤ 100000) (now : Int) (e : EvOkN cfg n v.tl v.x now) (c : Ctx)
+    (hp : v.sx.s.poll v.sx.apps now (n.bus.transmitting v.x now) [] = .ok c) (hinvc : Inv c.s c.apps)
+    (hout : UseOut v.sx.s v.sx.apps c now)
+    (hq1 : v.Lo < now) (hends : ∀ o ∈ n.bus.txs, cEnd cfg o ≤ now)
+    (hnotok : ∀ j, j < n.stations.length → j ≠ v.x → ∀ a, v.tr.bytes ≠ tokenBytes (adr j) a)
+    (hturn : v.turn M adr = adr v.x)
+    (hsync : cEnd cfg v.tr + (cfg.b33 : Nat) < now ∨ (v.ph = .holdT ∧ cEnd cfg v.tr + (cfg.b33 : Nat) ≤ now)) :
+    NStepOut cfg M adr n v v.x now := by
+  obtain ⟨o1, o4, o5, o6, oans, o7⟩ := hout
+  have hxs : v.x < n.bus.seen.length := by rw [h.log.seen]; exact h.xlt
+  have hc5 := cfg.ce5 hok.rate
+  have hr := hok.rate
+  have h7 : AnsOk AppP c.apps := oans AppP h.okx.apps
+  rcases o7 with ⟨⟨hd, pdu, bytes, hP, hser, htx, hlast, hstc⟩, hring⟩ | ⟨g, cur, hcur, hna, htx, hst', hring, hlast⟩ |
+      ⟨htx, hring, hst', hlast⟩
+  · -- application telegram
+    have hlb : hd.lengthByte pdu.length ≤ 249 := hP _ (scriptsOk_ansOk h.okx.inv.scripts)
+    have happP : AppP hd pdu := hP AppP h.okx.apps
+    have hbytes : bytes = frameSpec hd pdu := by
+      have := serialize_ok hd pdu hlb
+      rw [hser] at this
+      cases this; rfl
+    subst hbytes
+    have hpos : 0 < (frameSpec hd pdu).length := by
+      rw [frame_length]; unfold Header.telegramLen; simp only; split <;> omega
+    have hlast' : c.s.lastBusActivity = some (now + ((bitsToTime cfg.rate (11 * (frameSpec hd pdu).length) : Nat) : Int)) := by
+      rw [hlast, h.okx.bits]
+    have hte := tEnd_cEnd cfg hr { start := now, sender := v.x, bytes := frameSpec hd pdu, dropped := false } hpos
+    unfold tEnd cEnd at hte
+    simp only at hte
+    have hkind : TxKind M adr n.stations.length { start := now, sender := v.x, bytes := frameSpec hd pdu, dropped := false } :=
+      ⟨v.x, h.xlt, rfl, .inr (.inr ⟨hd, pdu, rfl, happP, hlb⟩)⟩
+    have hown' : ∀ l, c.s.lastBusActivity = some l → now ≤ l ∧
+        now + ((cfg.ce ((frameSpec hd pdu).length - 1) : Nat) : Int) ≤ l + 1 := by
+      intro l hl
+      rw [hlast'] at hl
+      cases hl
+      exact ⟨by omega, hte.2⟩
+    have hfin : ∀ st, n.stations[v.x]? = some st → ∀ P : Header → Bytes → Prop, AnsOk P st.apps → P hd pdu := by
+      intro st hst P hPa
+      rw [h.gx] at hst
+      cases hst
+      exact hP P hPa
+    rcases hstc with ⟨hexp, d', f', hst'⟩ | ⟨a8, hexp, d', hst'⟩
+    · obtain ⟨n', pre', hn', hinv'⟩ := ninv_send_x h hok hP100 now e c _ .holdT
+        (now + ((bitsToTime cfg.rate (11 * (frameSpec hd pdu).length) : Nat) : Int) + (cfg.b33 : Nat) + (cfg.P : Nat))
+        (now + ((bitsToTime cfg.rate (11 * (frameSpec hd pdu).length) : Nat) : Int) + (cfg.b33 : Nat))
+        hp htx o4 (by rw [hring]; exact h.okx.view) (o5.trans h.okx.son) (o6.trans h.pbx) o1 h7 hpos hkind hq1 (by omega)
+        hends hnotok hown'
+        (by
+          intro pre'
+          unfold PhaseOkN NView.sendX upSt tEnd
+          simp only
+          rw [seen_set_self _ _ _ hxs]
+          exact ⟨trivial, ⟨hd, pdu, rfl⟩, ⟨d', f', hst'⟩, hlast', Int.le_refl _, by omega, trivial, trivial⟩)
+      refine ⟨n', _, [], c, hn', hinv', rfl, .inr ⟨_, htx, hturn.symm, hsync, rfl, .inr (.inr ⟨hd, pdu, rfl, happP, ?_, .inl rfl, hfin⟩)⟩⟩
+      unfold NView.turn NView.sendX
+      rfl
+    · obtain ⟨n', pre', hn', hinv'⟩ := ninv_send_x h hok hP100 now e c _ (.await a8.toNat)
+        (now + ((bitsToTime cfg.rate (11 * (frameSpec hd pdu).length) : Nat) : Int) + (cfg.slot : Nat) + (cfg.P : Nat))
+        (now + ((bitsToTime cfg.rate (11 * (frameSpec hd pdu).length) : Nat) : Int) + (cfg.slot : Nat))
+        hp htx o4 (by rw [hring]; exact h.okx.view) (o5.trans h.okx.son) (o6.trans h.pbx) o1 h7 hpos hkind hq1 (by omega)
+        hends hnotok hown'
+        (by
+          intro pre'
+          unfold PhaseOkN NView.sendX upSt tEnd
+          simp only
+          rw [seen_set_self _ _ _ hxs]
+          exact ⟨trivial, ⟨hd, pdu, rfl⟩, ⟨d', hst'⟩, hlast', Int.le_refl _, by omega, trivial, trivial⟩)
+      refine ⟨n', _, [], c, hn', hinv', rfl, .inr ⟨_, htx, hturn.symm, hsync, rfl,
+        .inr (.inr ⟨hd, pdu, rfl, happP, ?_, .inr ⟨_, rfl⟩, hfin⟩)⟩⟩
+      unfold NView.turn NView.sendX
+      rfl
+  · -- GAP request
+    have hns : v.sx.s.ring.ns = cycSucc (adr v.x) M := h.okx.view.ns.1
+    rw [h.okx.addr, hns] at hcur
+    rw [h.okx.addr] at hna htx
+    have hbtw := nextGapPoll_between _ _ _ _ _ hcur (h.ring.two _ (h.ring.mem v.x h.xlt))
+    have hgM : g ∉ M := fun hm =>
+      no_member_between (adr v.x) _ M (cycSucc_spec _ M) (h.ring.mem v.x h.xlt) g hm hbtw
+    have hg126 : g < 126 := by
+      have h1 := (hinvc.await1 g hst').1
+      have h2 := hinvc.gap g h1
+      have h3 := hinvc.hsa
+      omega
+    have hlast' : c.s.lastBusActivity = some (now + (cfg.b66 : Nat)) := by
+      rw [hlast, bitsN_11_6, h.okx.bits]; rfl
+    obtain ⟨n', pre', hn', hinv'⟩ := ninv_send_x h hok hP100 now e c _ (.gap g)
+      (now + (cfg.b66 : Nat) + (cfg.slot : Nat) + (cfg.P : Nat)) (now + (cfg.b66 : Nat) + (cfg.slot : Nat))
+      hp htx o4 (by rw [hring]; exact h.okx.view) (o5.trans h.okx.son) (o6.trans h.pbx) o1 h7
+      (by rw [statusRequestBytes_length]; omega)
+      ⟨v.x, h.xlt, rfl, .inr (.inl ⟨g, hg126, hgM, rfl⟩)⟩ hq1 (by omega) hends hnotok
+      (by
+        intro l hl
+        rw [hlast'] at hl
+        cases hl
+        refine ⟨by omega, ?_⟩
+        rw [statusRequestBytes_length]
+        show now + ((cfg.ce 5 : Nat) : Int) ≤ _
+        omega)
+      (by
+        intro pre'
+        unfold PhaseOkN NView.sendX upSt
+        simp only
+        rw [seen_set_self _ _ _ hxs]
+        exact ⟨trivial, trivial, hst', hlast', Int.le_refl _, by omega, trivial, trivial⟩)
+    refine ⟨n', _, [], c, hn', hinv', rfl, .inr ⟨_, htx, hturn.symm, hsync, rfl, .inl ⟨g, rfl, hgM, ?_, rfl⟩⟩⟩
+    unfold NView.turn NView.sendX
+    rfl
+  · exact stepNX_token h hok hP100 now e c hp htx hring hst' hlast o4 (o5.trans h.okx.son)
+      (o6.trans h.pbx) o1 h7 hq1 hends hnotok hturn hsync
+
+/-- Phase `hold`, the first poll after the synchronisation pause. -/
+theorem stepNX_hold_go {cfg : Cfg} {M : List Nat} {adr : Nat → Nat} {n : Net} {v : NView} (h : NInv cfg M adr n v)
+    (hok : cfg.Ok) (hP100 : cfg.P ≤ 100000) (p1 : Int) (hph : v.ph = .hold p1) (now : Int) (e : EvOkN cfg n v.tl v.x now)
+    (hgo : p1 + (cfg.b33 : Nat) < now) : NStepOut cfg M adr n v v.x now := by
+  have hP := h.ph
+  unfold PhaseOkN at hP
+  rw [hph] at hP
+  obtain ⟨⟨d, f, hst⟩, hlx, ⟨a0, htok⟩, hend, hp1, hsx, hH, hLo, hp1P⟩ := hP
+  simp only at hp1 hsx
+  have hown := e.own
+  have hphy := h.phyX p1 now hlx (by omega)
+  have hax := h.ring.lt v.x h.xlt
+  obtain ⟨c, hp, hinvc, -, hout⟩ := holder_poll_outA v.sx.s v.sx.apps now p1 d f h.okx.inv h.okx.son hst hlx
+    (by rw [h.okx.b33]; exact hgo)
+  have hends : ∀ o ∈ n.bus.txs, cEnd cfg o ≤ now := by
+    intro o ho
+    rcases h.doneX o ho with hs | hs
+    · have := h.ownX p1 hlx o ho hs; omega
+    · omega
+  have hnotok : ∀ j, j < n.stations.length → j ≠ v.x → ∀ a, v.tr.bytes ≠ tokenBytes (adr j) a := by
+    intro j hj hjx a hb
+    rw [htok] at hb
+    have haj := h.ring.lt j hj
+    exact hjx (h.ring.inj j v.x hj h.xlt (tokenBytes_adr_inj _ _ _ _ (by omega) (by omega) hb).symm)
+  have hturn : v.turn M adr = adr v.x := by unfold NView.turn; rw [hph]
+  exact stepNX_emit h hok hP100 now e c (by rw [hphy]; exact hp) hinvc hout (by omega) hends hnotok hturn (.inl (by omega))
+
+/-- Phase `holdT`, the first poll after the synchronisation pause following the own application telegram. -/
+theorem stepNX_holdT_go {cfg : Cfg} {M : List Nat} {adr : Nat → Nat} {n : Net} {v : NView} (h : NInv cfg M adr n v)
+    (hok : cfg.Ok) (hP100 : cfg.P ≤ 100000) (hph : v.ph = .holdT) (now : Int) (e : EvOkN cfg n v.tl v.x now)
+    (hgo : tEnd cfg v.tr + (cfg.b33 : Nat) < now) : NStepOut cfg M adr n v v.x now := by
+  have hP := h.ph
+  unfold PhaseOkN at hP
+  rw [hph] at hP
+  obtain ⟨hs1, ⟨h0, pdu, hb⟩, ⟨d, f, hst⟩, hlx, hq, hsx, hH, hLo⟩ := hP
+  simp only at hq hsx
+  have hown := e.own
+  have hphy := h.phyX _ now hlx (by omega)
+  have hpos := (TxKind.wire h.ring (h.log.kinds v.tr (by rw [h.txs]; simp))).2.2
+  have hte := tEnd_cEnd cfg hok.rate v.tr hpos
+  obtain ⟨c, hp, hinvc, -, hout⟩ := holder_poll_outA v.sx.s v.sx.apps now _ d f h.okx.inv h.okx.son hst hlx
+    (by rw [h.okx.b33]; exact hgo)
+  have hends : ∀ o ∈ n.bus.txs, cEnd cfg o ≤ now := by
+    intro o ho
+    rcases h.doneX o ho with hs | hs
+    · have := h.ownX _ hlx o ho hs; omega
+    · omega
+  have hnotok : ∀ j, j < n.stations.length → j ≠ v.x → ∀ a, v.tr.bytes ≠ tokenBytes (adr j) a := by
+    intro j hj hjx a hbt
+    rw [hb] at hbt
+    exact frameSpec_ne_token _ _ _ _ hbt
+  have hturn : v.turn M adr = adr v.x := by unfold NView.turn; rw [hph]
+  exact stepNX_emit h hok hP100 now e c (by rw [hphy]; exact hp) hinvc hout (by omega) hends hnotok hturn
+    (.inr ⟨hph, by omega⟩)
+
+/-- Phase `await`, the first poll after the slot time has expired: the application gets its time-out and the
+token visit continues in the same poll. -/
+theorem stepNX_await_timeout {cfg : Cfg} {M : List Nat} {adr : Nat → Nat} {n : Net} {v : NView} (h : NInv cfg M adr n v)
+    (hok : cfg.Ok) (hP100 : cfg.P ≤ 100000) (a : Nat) (hph : v.ph = .await a) (now : Int) (e : EvOkN cfg n v.tl v.x now)
+    (hex : tEnd cfg v.tr + (cfg.slot : Nat) < now) : NStepOut cfg M adr n v v.x now := by
+  have hP := h.ph
+  unfold PhaseOkN at hP
+  rw [hph] at hP
+  obtain ⟨hs1, ⟨h0, pdu, hb⟩, ⟨d, hst⟩, hlx, hq, hsx, hH, hLo⟩ := hP
+  simp only at hq hsx
+  have hown := e.own
+  have hmar := hok.margin
+  have hphy := h.phyX _ now hlx (by omega)
+  have hpos := (TxKind.wire h.ring (h.log.kinds v.tr (by rw [h.txs]; simp))).2.2
+  have hte := tEnd_cEnd cfg hok.rate v.tr hpos
+  obtain ⟨c, hp, hinvc, -, hout⟩ := awaitD_poll_timeoutA v.sx.s v.sx.apps now _ a d h.okx.inv h.okx.son hst hlx
+    (by rw [h.okx.slot]; exact hex) (by rw [h.okx.b33, h.okx.slot]; omega)
+  have hends : ∀ o ∈ n.bus.txs, cEnd cfg o ≤ now := by
+    intro o ho
+    rcases h.doneX o ho with hs | hs
+    · have := h.ownX _ hlx o ho hs; omega
+    · omega
+  have hnotok : ∀ j, j < n.stations.length → j ≠ v.x → ∀ a, v.tr.bytes ≠ tokenBytes (adr j) a := by
+    intro j hj hjx a hbt
+    rw [hb] at hbt
+    exact frameSpec_ne_token _ _ _ _ hbt
+  have hturn : v.turn M adr = adr v.x := by unfold NView.turn; rw [hph]
+  exact stepNX_emit h hok hP100 now e c (by rw [hphy]; exact hp) hinvc hout (by omega) hends hnotok hturn
+    (.inl (by omega))
+
+/-- Phase `gap`, the first poll after the slot time has expired: the token goes to the successor. -/
+theorem stepNX_gap_timeout {cfg : Cfg} {M : List Nat} {adr : Nat → Nat} {n : Net} {v : NView} (h : NInv cfg M adr n v)
+    (hok : cfg.Ok) (hP100 : cfg.P ≤ 100000) (g : Nat) (hph : v.ph = .gap g) (now : Int) (e : EvOkN cfg n v.tl v.x now)
+    (hex : v.tr.start + (cfg.b66 : Nat) + (cfg.slot : Nat) < now) : NStepOut cfg M adr n v v.x now := by
+  have hP := h.ph
+  unfold PhaseOkN at hP
+  rw [hph] at hP
+  obtain ⟨hs1, hb, hst, hlx, hq, hsx, hH, hLo⟩ := hP
+  simp only at hq hsx
+  have hown := e.own
+  have hmar := hok.margin
+  have hc5 := cfg.ce5 hok.rate
+  have hlen : v.tr.bytes.length = 6 := by rw [hb]; exact statusRequestBytes_length _ _
+  have hce : cEnd cfg v.tr = v.tr.start + ((cfg.ce 5 : Nat) : Int) := by unfold cEnd; rw [hlen]
+  have hphy := h.phyX _ now hlx (by omega)
+  obtain ⟨c, hp, hinvc, o1, o2, o4, o5, o6, htx, hring, hst', hlast⟩ := await_poll_timeoutA v.sx.s v.sx.apps now _ g
+    h.okx.inv h.okx.son hst hlx (by rw [h.okx.slot]; exact hex) (by rw [h.okx.b33, h.okx.slot]; omega)
+  have hends : ∀ o ∈ n.bus.txs, cEnd cfg o ≤ now := by
+    intro o ho
+    rcases h.doneX o ho with hs | hs
+    · have := h.ownX _ hlx o ho hs; omega
+    · omega
+  have hnotok : ∀ j, j < n.stations.length → j ≠ v.x → ∀ a, v.tr.bytes ≠ tokenBytes (adr j) a := by
+    intro j hj hjx a hbt
+    rw [hb] at hbt
+    exact statusRequest_ne_token _ _ _ _ hbt
+  have hturn : v.turn M adr = adr v.x := by unfold NView.turn; rw [hph]
+  exact stepNX_token h hok hP100 now e c (by rw [hphy]; exact hp) htx hring hst' hlast o4 (o5.trans h.okx.son)
+    (o6.trans h.pbx) o1 (by rw [o2]; exact h.okx.apps) (by omega) hends hnotok hturn (.inl (by rw [hce]; omega))
+
+/-- **One event** of the stable N-station ring (with application traffic). -/
+theorem ringN_step {cfg : Cfg} {M : List Nat} {adr : Nat → Nat} {n : Net} {v : NView} (h : NInv cfg M adr n v)
+    (hok : cfg.Ok) (hP100 : cfg.P ≤ 100000) (i : Nat) (now : Int) (e : EvOkN cfg n v.tl i now) :
+    NStepOut cfg M adr n v i now := by
+  by_cases hix : i = v.x
+  · subst hix
+    cases hph : v.ph with
+    | hold p1 =>
+      by_cases hw : now ≤ p1 + (cfg.b33 : Nat)
+      · exact stepNX_hold_wait h hok p1 hph now e hw
+      · exact stepNX_hold_go h hok hP100 p1 hph now e (by omega)
+    | holdT =>
+      by_cases hw : now ≤ tEnd cfg v.tr + (cfg.b33 : Nat)
+      · exact stepNX_holdT_wait h hok hph now e hw
+      · exact stepNX_holdT_go h hok hP100 hph now e (by omega)
+    | gap g =>
+      by_cases hw : now ≤ v.tr.start + (cfg.b66 : Nat) + (cfg.slot : Nat)
+      · exact stepNX_gap_wait h hok g hph now e hw
+      · exact stepNX_gap_timeout h hok hP100 g hph now e (by omega)
+    | await a =>
+      by_cases hw : now ≤ tEnd cfg v.tr + (cfg.slot : Nat)
+      · exact stepNX_await_wait h hok a hph now e hw
+      · exact stepNX_await_timeout h hok hP100 a hph now e (by omega)
+    | pass => exact stepNX_pass h hok hph now e
+  · exact stepL h hok i hix now e
+
 end PV
